@@ -44,7 +44,7 @@ func customC15(r *Run) ([]Crash, error) {
 	if r.Thorough() {
 		// plus a fixed sample of six-node shapes
 		six := shapes.Enumerate(6, 3, true)[len(forests):]
-		for _, i := range spread(len(six), 700) {
+		for _, i := range spread(len(six), 2500) {
 			forests = append(forests, six[i])
 		}
 	}
